@@ -79,6 +79,7 @@ pub enum Event {
     DeliverError,
     Queue(Op),
     Job(Inode, Inode, int, int),            // pool job: src inode, dst inode, off, bytes
+    PoolJoin,                               // the block pool was waited for: every job queued before has run to completion
 }
 
 pub struct World {
